@@ -429,6 +429,10 @@ func c01optStats(c *ctx, toks []string) {
 
 // corpus of minimised past failures (each one is the replay of a repaired or known difference)
 var c01corpus = []string{
+	// drain-support: an Endpoints update that only moves addresses between ready and not-ready (same address set);
+	// the re-parsed backend differs from the old one in server weights only (seed C03e)
+	"cm~drain-support=true svc+d/app!http:80:8080!- ep~d/app!10.0.1.1:r:app-1+10.0.1.2:r:app-2 ing+d/i1@1!haproxy,-!-!a.local>/:Prefix:app:80!-!- sync ep~d/app!10.0.1.1:r:app-1+10.0.1.2:n:app-2 sync ep~d/app!10.0.1.1:n:app-1+10.0.1.2:r:app-2 sync",
+	"cm~drain-support=true svc+d/app!http:80:8080!- ep~d/app!10.0.1.1:n:app-1 ing+d/i1@1!haproxy,-!-!a.local>/:Prefix:app:80!-!- sync ep~d/app!10.0.1.1:r:app-1 sync",
 	// an ssl-passthrough host re-parsed unchanged (endpoints event), then removed: HasSSLPassthrough() decides the
 	// frontend layout, the derived counter must follow the items (seed C01d; model: C01 hosts ...)
 	"svc+d/app!http:80:8080!- ep~d/app!10.0.1.1:r:app-1 ing+d/i1@1!haproxy,-!ssl-passthrough=true!a.local>/:Prefix:app:80!-!- ing+d/i2@2!haproxy,-!-!b.local>/:Prefix:app:80!-!- sync ep~d/app!10.0.1.1:r:app-1+10.0.1.2:r:app-2 sync ing-d/i1 sync",
